@@ -324,7 +324,7 @@ fn run_e2e(
             // C05: "every fee-dependent input threshold was computed with that same fee"
             for (spec, it) in txspec.inputs.iter().zip(its_r.iter()) {
                 let fee_dependent = spec.min.as_ref().map(|m| m.0.iter().any(|(_, t)| matches!(t, Term::Fees))).unwrap_or(false);
-                let (Some(min), Some(sel), true) = (&it.min, b.get(&it.name), fee_dependent) else { continue };
+                let (Some(min), Some(sel)) = (&it.min, b.get(&it.name)) else { continue };
                 let mut sum = Value::new();
                 for u in sel {
                     value_add(&mut sum, &utxo_value(u));
@@ -332,6 +332,8 @@ fn run_e2e(
                 let covered = if it.many { value_covers(&sum, min) } else { sel.iter().all(|u| value_covers(&utxo_value(u), min)) };
                 if !covered {
                     below_threshold[ri] = true;
+                }
+                if !covered && fee_dependent {
                     rep.violate(
                         "C05",
                         "F3-threshold",
@@ -376,10 +378,31 @@ fn run_e2e(
                 // cause lies elsewhere and the shape says so
                 let last_ok = res.rounds.iter().rposition(|r| r.out.is_ok());
                 let uncovered = last_ok.map(|i| below_threshold[i]).unwrap_or(false);
+                // ... and only where some output's exact value really is outside its field: if every
+                // output of the template evaluates to something the ledger can hold, a wrapped or
+                // dropped amount has another cause
+                let all_in_range = last_ok
+                    .map(|i| {
+                        let ex = expected_outputs(program, txspec, args, d.fee, &bindings_of(&res.rounds[i].tir));
+                        ex.iter().all(|v| v.as_ref().map(|x| x.values().all(|a| *a >= 0 && *a <= u64::MAX as i128)).unwrap_or(false))
+                    })
+                    .unwrap_or(false);
+                // the listed fold_assets defect (ECHO-mint/sum-of-amounts-overflows-i64) also unbalances
+                // the transaction: the mint field loses the asset while the outputs keep it
+                let mint_sum_overflow = (0..program.tokens.len()).any(|tok| {
+                    let same = |i: usize| program.tokens[i].key() == program.tokens[tok].key();
+                    let m: i128 = txspec.mints.iter().filter(|m| same(m.tok)).filter_map(|m| q_val(&m.q, args)).fold(0i128, |a, x| a.saturating_add(x));
+                    let b: i128 = txspec.burns.iter().filter(|m| same(m.tok)).filter_map(|m| q_val(&m.q, args)).fold(0i128, |a, x| a.saturating_add(x));
+                    m > i64::MAX as i128 || b > (i64::MAX as i128) + 1
+                });
                 let hint = if extreme {
                     "int-arg-near-i128-limit"
+                } else if mint_sum_overflow {
+                    "mint-sum-of-amounts-overflows-i64"
                 } else if uncovered {
                     "selection-below-its-threshold"
+                } else if all_in_range {
+                    "although-every-output-is-in-range"
                 } else {
                     ""
                 };
